@@ -6,7 +6,7 @@
    xor-ed over the protected bytes in order, identity elsewhere.  E is ANY function from key and block to
    16-byte blocks. *)
 From V.lib Require Import Base.
-From V.c07 Require Import C07Model C07Spec C07RangeProofs C07CryptProofs C07FinalProofs.
+From V.c07 Require Import C07Model C07Spec C07RangeProofs C07CryptProofs C07AuxProofs C07FinalProofs.
 
 (* AppendProtectRange, every nrClear / nrProtected (65535, 65536, 131070, ... included) *)
 Theorem C07_append_protect_range : forall ssps c p,
@@ -100,6 +100,56 @@ Theorem C07_no_counter_reuse :
      (be (e_iv ei) + t) mod 2 ^ 128 <> (be (e_iv ej) + t') mod 2 ^ 128).
 Proof. exact no_counter_reuse_final. Qed.
 Print Assumptions C07_no_counter_reuse.
+
+(* cbcs: cryptSampleCbcs (both directions) = reference CBC over the crypt:skip block pattern (1:9 for video,
+   every whole block for audio), chained over the crypted blocks only, the constant IV restarted in every protected
+   range, identity elsewhere — for all block functions with 16-byte outputs *)
+Theorem C07_cbcs_matches_reference :
+  forall (E D : list N -> list N -> list N) (key : list N),
+  (forall k b, length (E k b) = 16%nat) ->
+  (forall k b, length (D k b) = 16%nat) ->
+  forall (dec : bool) (iv : list N) (ssps : list ssp) (cb sb : N) (sample : list N),
+  key_ok key = true -> length iv = 16%nat ->
+  sumN (map (fun p => ss_clear p + ss_prot p) ssps) <= lenN sample ->
+  lenN sample < 4294967296 ->
+  crypt_sample_cbcs E D dec key iv ssps cb sb sample = Ok (ref_cbcs E D dec key iv ssps cb sb sample).
+Proof. exact cbcs_matches_reference_final. Qed.
+Print Assumptions C07_cbcs_matches_reference.
+
+(* auxiliary information: AddSampleInfo records the byte length of the senc entry MODULO 256; it is the length
+   whenever the entry is shorter than 256 bytes (i.e. < 40 sub-samples with a 16-byte IV, < 43 without IV) *)
+Theorem C07_aux_info : forall b iv ssps b',
+  ssps <> [] -> saiz_add b iv ssps = Ok b' ->
+  sz_info b' = sz_info b ++ [lenN (entry_bytes iv ssps) mod 256] /\
+  sz_count b' = sz_count b + 1 /\
+  (lenN (entry_bytes iv ssps) < 256 -> sz_info b' = sz_info b ++ [lenN (entry_bytes iv ssps)]).
+Proof. exact aux_info_final. Qed.
+Print Assumptions C07_aux_info.
+
+Theorem C07_aux_entry : forall s i iv ssps,
+  0 <? sn_ivsize s = true -> sn_subs s = true ->
+  nth_error (sn_ivs s) i = Some iv -> nth_error (sn_ss s) i = Some ssps ->
+  senc_entry s i = Ok (entry_bytes iv ssps) /\ lenN (entry_bytes iv ssps) = lenN iv + 2 + 6 * lenN ssps.
+Proof. exact aux_entry_final. Qed.
+Print Assumptions C07_aux_entry.
+
+(* the unguarded statement is false (known finding C07-F1, reproduced on the real code by the search):
+   40 sub-samples + 16-byte IV = 258 bytes, recorded as 2 *)
+Theorem C07_aux_info_overflow_refuted :
+  exists iv ssps b',
+    lenN iv = 16 /\ lenN ssps = 40 /\
+    saiz_add saiz_empty iv ssps = Ok b' /\ sz_info b' = [2] /\ lenN (entry_bytes iv ssps) = 258.
+Proof. exact aux_info_overflow_final. Qed.
+Print Assumptions C07_aux_info_overflow_refuted.
+
+(* saio: the offset EncryptFragment stores is the position of the first senc entry computed from the box sizes
+   AT ENCRYPTION TIME (moof header, boxes before the traf, traf header, traf children before senc, senc header).
+   Nothing updates it when Fragment.Encode later rewrites tfhd/trun (OptimizeTrun): known finding C07-F2. *)
+Theorem C07_saio_offset : forall before pre z post,
+  forallb (fun x => negb (fst x)) pre = true -> forallb (fun x => negb (fst x)) post = true ->
+  saio_offset before (pre ++ (true, z) :: post) = 8 + sumN before + 8 + sumN (map snd pre) + 16.
+Proof. exact saio_offset_final. Qed.
+Print Assumptions C07_saio_offset.
 
 (* ---------------------------------------------------------------- the hypotheses are satisfiable *)
 Definition ex_nalus : list (list N) :=
